@@ -862,6 +862,13 @@ static mi_segment_t* mi_segment_os_alloc( size_t required, size_t page_alignment
   if (memid.initially_committed) {
     mi_commit_mask_create_full(&commit_mask);
   }
+  else if (required > 0) {
+    // a huge segment must be committed as a whole (its single page is handed out without consulting the
+    // commit mask), but the requested commit was refused: fail instead of handing out inaccessible memory
+    mi_assert_internal(commit);
+    _mi_arena_free(segment,segment_size,0,memid);
+    return NULL;
+  }
   else {
     // at least commit the info slices
     const size_t commit_needed = _mi_divide_up((*pinfo_slices)*MI_SEGMENT_SLICE_SIZE, MI_COMMIT_SIZE);
